@@ -246,6 +246,9 @@ def mismatches(mesh, case, lo, dx0):
             moved = ((blo[0], blo[1], blo[2] + 2), (bhi[0], bhi[1], bhi[2] + 2))
             if all(not overlap(moved, o) for o in lv[:-1]):
                 out.append(('box-moved', Ref('q', 3, case['fields2'], mesh.ncell0, boxes[:-1] + [lv[:-1] + [moved]], lo=lo, dx0=dx0)))
+    # the same physical boxes at twice the resolution: every box spans another index range (and holds 8x the cells)
+    fine = [[(tuple(2 * x for x in blo), tuple(2 * x + 1 for x in bhi)) for blo, bhi in lvb] for lvb in boxes]
+    out.append(('same-boxes-finer-indices', Ref('q', 3, case['fields2'], tuple(2 * n for n in mesh.ncell0), fine, lo=lo, dx0=[x / 2 for x in dx0])))
     return out
 
 
